@@ -84,7 +84,10 @@ def main():
 
     # 2. correspondence + monitors
     try:
-        res = mod.run(args.tier, seed, drv)
+        import contextlib
+        import io
+        with contextlib.redirect_stdout(io.StringIO()):
+            res = mod.run(args.tier, seed, drv)
     except Exception:
         print("infrastructure error in check run:\n" + traceback.format_exc())
         return 2
